@@ -238,6 +238,7 @@ type Obligation struct {
 	Result *SolveResult
 	Query  string
 	exclTerm          *Term
+	splitConds        []Term // branch conditions defined before this obligation (for case splitting on timeout)
 	knownExpectedFail *KnownFinding
 }
 
@@ -289,6 +290,8 @@ type Run struct {
 	knownExcl map[string]Term
 	errGlobals []Term
 	ifaceSpec *FuncSpec
+	conds     []Term
+	condMark  []int
 	ifaceAssigns []Expr
 }
 
